@@ -351,6 +351,318 @@ Section Leftovers.
   Qed.
 End Leftovers.
 
+(* ---- chains of saves: from any durable directory state ----
+   [good st cur]: nothing pending, nothing open, the session file holds [cur] in a synced
+   inode (or does not exist), inode numbers from [next st] on are unused.  Whatever else is
+   in the directory (leftovers of interrupted saves, other files) is arbitrary. *)
+(* failure branches of writeFileAtomic: a write/sync/close/rename error is followed by Close and
+   Remove(tmp); no rename has happened: every crash state still shows the previous content *)
+Definition fail_ops (t : name) (chunks : list bytes) (synced : bool) : list op :=
+  [OOpen 0 t true true false] ++ writes 0 chunks ++ (if synced then [OFsync 0] else []) ++ [OClose 0; OUnlink t].
+
+Lemma aget_adel_other {A} k k' (l : list (nat * A)) : k <> k' -> aget k (adel k' l) = aget k l.
+Proof.
+  intros N; induction l as [|[q v] r IH]; cbn; auto.
+  destruct (Nat.eqb_spec k' q); cbn.
+  - subst q. destruct (Nat.eqb_spec k k'); [contradiction|exact IH].
+  - destruct (Nat.eqb k q); auto.
+Qed.
+
+Record good (st : fs) (cur : option bytes) : Prop := {
+  g_pend : pend st = [];
+  g_fds : fds st = [];
+  g_tgt : match cur with
+          | Some b => exists i, aget tgt (ddir st) = Some i /\ aget i (inodes st) = Some (clean_with b)
+          | None => aget tgt (ddir st) = None
+          end;
+  g_next : forall i, next st <= i -> aget i (inodes st) = None
+}.
+
+Section OneSave.
+  Variable st0 : fs.
+  Variable cur : option bytes.
+  Variable t : name.
+  Hypothesis G : good st0 cur.
+  Hypothesis Ht : aget t (ddir st0) = None.
+  Hypothesis Hne : t <> tgt.
+  Let n := next st0.
+  Let I0 := inodes st0.
+  Let Dg := ddir st0.
+  Definition CRg := [DCreate t n; DRename t tgt].
+  Definition D2g := apply_dirops Dg CRg.
+  Definition midg (nd : inode) (dd : list (name * ino)) (pnd : list dirop) (f : list (fdn * fdt)) : fs :=
+    {| inodes := aset n nd I0; ddir := dd; pend := pnd; fds := f; next := S n |}.
+
+  Lemma n_fresh : aget n I0 = None.
+  Proof. apply (g_next _ _ G). unfold n; lia. Qed.
+  Lemma open_g : step st0 (OOpen 0 t true true false) = Some (midg fresh Dg [DCreate t n] [(0, FFile n)]).
+  Proof.
+    unfold step, vdir. rewrite (g_fds _ _ G), (g_pend _ _ G). cbn [aget apply_dirops fold_left].
+    rewrite Ht. reflexivity.
+  Qed.
+  Lemma aget_n nd : aget n (aset n nd I0) = Some nd.
+  Proof. apply aget_aset_same. Qed.
+  Lemma wrote_g nd dd p f w :
+    wrote (midg nd dd p f) n nd w = midg {| i_dur := i_dur nd; i_vol := i_vol nd ++ w; i_dirty := true |} dd p f.
+  Proof. unfold wrote, with_inodes, midg; cbn [inodes ddir pend fds next]. rewrite aset_aset. reflexivity. Qed.
+  Lemma fsync_g nd dd p :
+    step (midg nd dd p [(0, FFile n)]) (OFsync 0) = Some (midg (clean_with (i_vol nd)) dd p [(0, FFile n)]).
+  Proof.
+    unfold step; cbn [fds midg aget Nat.eqb inodes]. rewrite aget_n.
+    unfold with_inodes, midg; cbn [inodes ddir pend fds next]. rewrite aset_aset. reflexivity.
+  Qed.
+  Lemma rename_g nd : step (midg nd Dg [DCreate t n] []) (ORename t tgt) = Some (midg nd Dg CRg []).
+  Proof.
+    unfold step, vdir; cbn [midg pend ddir apply_dirops fold_left apply_dirop].
+    rewrite aget_aset_same. reflexivity.
+  Qed.
+  Lemma dirsync_g nd : step (midg nd Dg CRg [(1, FDir)]) (OFsync 1) = Some (midg nd D2g [] [(1, FDir)]).
+  Proof. reflexivity. Qed.
+
+  Lemma tgt_old_g ps : ps = [] \/ ps = [DCreate t n] -> aget tgt (apply_dirops Dg ps) = aget tgt Dg.
+  Proof.
+    intros [->| ->]; cbn [apply_dirops fold_left apply_dirop]; [reflexivity|].
+    apply aget_aset_other. congruence.
+  Qed.
+  Lemma tgt_new_g : aget tgt D2g = Some n.
+  Proof. unfold D2g, CRg; cbn [apply_dirops fold_left apply_dirop]. rewrite aget_aset_same. apply aget_aset_same. Qed.
+
+  Lemma tgt_view :
+    (exists b i, cur = Some b /\ aget tgt Dg = Some i /\ aget i I0 = Some (clean_with b)) \/
+    (cur = None /\ aget tgt Dg = None).
+  Proof.
+    pose proof (g_tgt _ _ G) as T. destruct cur as [b|].
+    - destruct T as [i [Hd Hi]]. left. exists b, i. auto.
+    - right. auto.
+  Qed.
+  Lemma view_old_g pick nd ps :
+    (forall b, pick (clean_with b) = [b]) -> ps = [] \/ ps = [DCreate t n] ->
+    content_in (aset n nd I0) (apply_dirops Dg ps) tgt pick = [cur].
+  Proof.
+    intros Hp Hps. unfold content_in. rewrite (tgt_old_g ps Hps).
+    destruct tgt_view as [[b [i [E [Hd Hi]]]]|[E T]]; rewrite E.
+    - rewrite Hd.
+      assert (i <> n) by (intros ->; rewrite n_fresh in Hi; discriminate).
+      rewrite aget_aset_other by assumption. rewrite Hi. cbn. rewrite Hp. reflexivity.
+    - rewrite T. reflexivity.
+  Qed.
+  Lemma view_new_g pick nd : content_in (aset n nd I0) D2g tgt pick = map Some (pick nd).
+  Proof. unfold content_in. rewrite tgt_new_g, aget_n. reflexivity. Qed.
+
+  Lemma crash_A_g m nd f p c : p = [] \/ p = [DCreate t n] -> In c (crash m tgt (midg nd Dg p f)) -> c = cur.
+  Proof.
+    intros Hp H. destruct m; unfold crash, crash_gen, vdir in H; cbn [midg inodes ddir pend] in H.
+    - rewrite (view_old_g _ nd p (fun b => eq_refl) Hp) in H. fin.
+    - apply in_flat_map in H. destruct H as [ps [Hps H]].
+      rewrite (view_old_g _ nd ps (fun b => eq_refl)) in H; [fin|].
+      destruct Hp as [->| ->]; cbn in Hps; fin.
+  Qed.
+  Lemma crash_B_g m new f c : In c (crash m tgt (midg (clean_with new) Dg CRg f)) -> c = cur \/ c = Some new.
+  Proof.
+    intros H. destruct m; unfold crash, crash_gen, vdir in H; cbn [midg inodes ddir pend] in H.
+    - fold D2g in H. rewrite view_new_g in H. cbn in H. fin.
+    - apply in_flat_map in H. destruct H as [ps [Hps H]]. cbn in Hps. destruct Hps as [<-|[<-|[<-|[]]]].
+      + rewrite (view_old_g _ _ [] (fun b => eq_refl) (or_introl eq_refl)) in H. fin.
+      + rewrite (view_old_g _ _ [DCreate t n] (fun b => eq_refl) (or_intror eq_refl)) in H. fin.
+      + fold CRg D2g in H. rewrite view_new_g in H. cbn in H. fin.
+  Qed.
+  Lemma crash_C_g m new f c : In c (crash m tgt (midg (clean_with new) D2g [] f)) -> c = Some new.
+  Proof.
+    intros H. destruct m; unfold crash, crash_gen, vdir in H; cbn [midg inodes ddir pend apply_dirops fold_left] in H.
+    - rewrite view_new_g in H. cbn in H. fin.
+    - cbn [list_prefixes flat_map apply_dirops fold_left app] in H. rewrite view_new_g, app_nil_r in H. cbn in H. fin.
+  Qed.
+  Lemma crash_init_g m c : In c (crash m tgt st0) -> c = cur.
+  Proof.
+    intros H.
+    unfold crash, crash_gen, vdir in H. rewrite (g_pend _ _ G) in H.
+    cbn [apply_dirops fold_left list_prefixes flat_map] in H. rewrite ?app_nil_r in H. unfold content_in in H.
+    destruct tgt_view as [[b [i [E [Hd Hi]]]]|[E T]]; rewrite E.
+    - fold Dg I0 in H. rewrite Hd, Hi in H. destruct m; cbn in H; fin.
+    - fold Dg in H. rewrite T in H. destruct m; cbn in H; fin.
+  Qed.
+
+  Lemma writes_g chunks new : concat chunks = new ->
+    exists nd, run (midg fresh Dg [DCreate t n] [(0, FFile n)]) (writes 0 chunks)
+               = Some (midg nd Dg [DCreate t n] [(0, FFile n)]) /\ i_vol nd = new.
+  Proof.
+    intros Hnew.
+    destruct (writes_run chunks (midg fresh Dg [DCreate t n] [(0, FFile n)]) 0 n fresh eq_refl (aget_n fresh)) as [[-> H]|H].
+    - exists fresh; split; [exact H|cbn in Hnew; subst new; reflexivity].
+    - rewrite wrote_g in H. eexists; split; [exact H|cbn; exact Hnew].
+  Qed.
+
+  Lemma store_atomic_good : forall (new : bytes) (chunks : list bytes) (dirsync : bool)
+                                   (m : crash_model) (c : option (option bytes)),
+    concat chunks = new ->
+    In c (crash_states m tgt st0 (store_ops_named t chunks dirsync)) ->
+    c = Some cur \/ c = Some (Some new).
+  Proof.
+    intros new chunks dirsync m c Hnew Hc.
+    apply in_crash_states in Hc; destruct Hc as [p [Hp Hc]].
+    unfold store_ops_named, crash_prefixes in Hp.
+    apply crash_prefixes_app in Hp; destruct Hp as [Hp|[q [Hq ->]]].
+    { cbn in Hp; destruct Hp as [<-|[<-|[]]].
+      - cbn [run] in Hc. apply in_map_iff in Hc. destruct Hc as [x [<- Hx]]. left. f_equal. exact (crash_init_g _ _ Hx).
+      - cbn [run] in Hc. rewrite open_g in Hc. apply in_map_iff in Hc. destruct Hc as [x [<- Hx]].
+        left. f_equal. eapply crash_A_g; [right; reflexivity|exact Hx]. }
+    rewrite run_app in Hc. cbn [run] in Hc. rewrite open_g in Hc.
+    apply crash_prefixes_app in Hq; destruct Hq as [Hq|[r [Hr ->]]].
+    { destruct (writes_crash chunks (midg fresh Dg [DCreate t n] [(0, FFile n)]) 0 n fresh q eq_refl (aget_n fresh) Hq) as [H|[w H]];
+        rewrite H in Hc; [|rewrite wrote_g in Hc];
+        apply in_map_iff in Hc; destruct Hc as [x [<- Hx]]; left; f_equal; (eapply crash_A_g; [right; reflexivity|exact Hx]). }
+    rewrite run_app in Hc.
+    destruct (writes_g chunks new Hnew) as [nd [Hw Hv]]. rewrite Hw in Hc. clear Hw.
+    assert (A : forall x nd' f, In x (map Some (crash m tgt (midg nd' Dg [DCreate t n] f))) -> x = Some cur \/ x = Some (Some new))
+      by (intros x nd' f Hi; apply in_map_iff in Hi; destruct Hi as [y [<- Hy]]; left; f_equal; eapply crash_A_g; [right; reflexivity|exact Hy]).
+    assert (B : forall x f, In x (map Some (crash m tgt (midg (clean_with new) Dg CRg f))) -> x = Some cur \/ x = Some (Some new))
+      by (intros x f Hi; apply in_map_iff in Hi; destruct Hi as [y [<- Hy]]; destruct (crash_B_g _ _ _ _ Hy) as [->| ->]; auto).
+    assert (C : forall x f, In x (map Some (crash m tgt (midg (clean_with new) D2g [] f))) -> x = Some cur \/ x = Some (Some new))
+      by (intros x f Hi; apply in_map_iff in Hi; destruct Hi as [y [<- Hy]]; rewrite (crash_C_g _ _ _ _ Hy); auto).
+    destruct dirsync; cbn in Hr;
+      repeat (destruct Hr as [<-|Hr]; [cbn [run] in Hc;
+                rewrite ?fsync_g, ?Hv in Hc; cbn [run] in Hc;
+                change (step (midg (clean_with new) Dg [DCreate t n] [(0, FFile n)]) (OClose 0)) with (Some (midg (clean_with new) Dg [DCreate t n] [])) in Hc;
+                cbn [run] in Hc; rewrite ?rename_g in Hc; cbn [run] in Hc;
+                change (step (midg (clean_with new) Dg CRg []) (OOpenDir 1)) with (Some (midg (clean_with new) Dg CRg [(1, FDir)])) in Hc;
+                cbn [run] in Hc; rewrite ?dirsync_g in Hc; cbn [run] in Hc;
+                change (step (midg (clean_with new) D2g [] [(1, FDir)]) (OClose 1)) with (Some (midg (clean_with new) D2g [] [])) in Hc;
+                cbn [run] in Hc; eauto |]); destruct Hr.
+  Qed.
+
+  (* a completed save with the directory sync ends in a good state that holds the new content *)
+  Lemma store_run_good : forall (new : bytes) (chunks : list bytes),
+    concat chunks = new ->
+    exists st', run st0 (store_ops_named t chunks true) = Some st' /\ good st' (Some new).
+  Proof.
+    intros new chunks Hnew. unfold store_ops_named.
+    rewrite run_app. cbn [run]. rewrite open_g. rewrite run_app.
+    destruct (writes_g chunks new Hnew) as [nd [Hw Hv]]. rewrite Hw. clear Hw.
+    cbn [run app]. rewrite fsync_g, Hv.
+    change (step (midg (clean_with new) Dg [DCreate t n] [(0, FFile n)]) (OClose 0)) with (Some (midg (clean_with new) Dg [DCreate t n] [])).
+    cbn [run]. rewrite rename_g.
+    change (step (midg (clean_with new) Dg CRg []) (OOpenDir 1)) with (Some (midg (clean_with new) Dg CRg [(1, FDir)])).
+    cbn [run]. rewrite dirsync_g.
+    change (step (midg (clean_with new) D2g [] [(1, FDir)]) (OClose 1)) with (Some (midg (clean_with new) D2g [] [])).
+    cbn [run]. eexists; split; [reflexivity|].
+    constructor; cbn [midg pend fds ddir inodes next]; auto.
+    - exists n. split; [apply tgt_new_g|apply aget_n].
+    - intros i Hi. rewrite aget_aset_other by lia. apply (g_next _ _ G). unfold n in Hi; lia.
+  Qed.
+  (* the failure branches: no rename happened, the temporary file is removed *)
+  Definition CUg := [DCreate t n; DUnlink t].
+  Lemma unlink_g nd : step (midg nd Dg [DCreate t n] []) (OUnlink t) = Some (midg nd Dg CUg []).
+  Proof.
+    unfold step, vdir; cbn [midg pend ddir apply_dirops fold_left apply_dirop].
+    rewrite aget_aset_same. reflexivity.
+  Qed.
+  Lemma view_unlinked_g pick nd :
+    (forall b, pick (clean_with b) = [b]) ->
+    content_in (aset n nd I0) (apply_dirops Dg CUg) tgt pick = [cur].
+  Proof.
+    intros Hp. unfold content_in, CUg. cbn [apply_dirops fold_left apply_dirop].
+    rewrite aget_adel_other by congruence. rewrite aget_aset_other by congruence.
+    destruct tgt_view as [[b [i [E [Hd Hi]]]]|[E T]]; rewrite E.
+    - rewrite Hd.
+      assert (i <> n) by (intros ->; rewrite n_fresh in Hi; discriminate).
+      rewrite aget_aset_other by assumption. rewrite Hi. cbn. rewrite Hp. reflexivity.
+    - rewrite T. reflexivity.
+  Qed.
+  Lemma crash_U_g m nd f c : In c (crash m tgt (midg nd Dg CUg f)) -> c = cur.
+  Proof.
+    intros H. destruct m; unfold crash, crash_gen, vdir in H; cbn [midg inodes ddir pend] in H.
+    - rewrite (view_unlinked_g _ nd (fun b => eq_refl)) in H. fin.
+    - apply in_flat_map in H. destruct H as [ps [Hps H]]. cbn in Hps. destruct Hps as [<-|[<-|[<-|[]]]].
+      + rewrite (view_old_g _ _ [] (fun b => eq_refl) (or_introl eq_refl)) in H. fin.
+      + rewrite (view_old_g _ _ [DCreate t n] (fun b => eq_refl) (or_intror eq_refl)) in H. fin.
+      + fold CUg in H. rewrite (view_unlinked_g _ nd (fun b => eq_refl)) in H. fin.
+  Qed.
+
+  Lemma fail_atomic_good : forall (chunks : list bytes) (synced : bool) (m : crash_model) (c : option (option bytes)),
+    In c (crash_states m tgt st0 (fail_ops t chunks synced)) -> c = Some cur.
+  Proof.
+    intros chunks synced m c Hc.
+    apply in_crash_states in Hc; destruct Hc as [p [Hp Hc]].
+    unfold fail_ops, crash_prefixes in Hp.
+    apply crash_prefixes_app in Hp; destruct Hp as [Hp|[q [Hq ->]]].
+    { cbn in Hp; destruct Hp as [<-|[<-|[]]].
+      - cbn [run] in Hc. apply in_map_iff in Hc. destruct Hc as [x [<- Hx]]. f_equal. exact (crash_init_g _ _ Hx).
+      - cbn [run] in Hc. rewrite open_g in Hc. apply in_map_iff in Hc. destruct Hc as [x [<- Hx]].
+        f_equal. eapply crash_A_g; [right; reflexivity|exact Hx]. }
+    rewrite run_app in Hc. cbn [run] in Hc. rewrite open_g in Hc.
+    apply crash_prefixes_app in Hq; destruct Hq as [Hq|[r [Hr ->]]].
+    { destruct (writes_crash chunks (midg fresh Dg [DCreate t n] [(0, FFile n)]) 0 n fresh q eq_refl (aget_n fresh) Hq) as [H|[w H]];
+        rewrite H in Hc; [|rewrite wrote_g in Hc];
+        apply in_map_iff in Hc; destruct Hc as [x [<- Hx]]; f_equal; (eapply crash_A_g; [right; reflexivity|exact Hx]). }
+    rewrite run_app in Hc.
+    destruct (writes_g chunks (concat chunks) eq_refl) as [nd [Hw Hv]]. rewrite Hw in Hc. clear Hw Hv.
+    assert (A : forall x nd' f, In x (map Some (crash m tgt (midg nd' Dg [DCreate t n] f))) -> x = Some cur)
+      by (intros x nd' f Hi; apply in_map_iff in Hi; destruct Hi as [y [<- Hy]]; f_equal; eapply crash_A_g; [right; reflexivity|exact Hy]).
+    assert (U : forall x nd' f, In x (map Some (crash m tgt (midg nd' Dg CUg f))) -> x = Some cur)
+      by (intros x nd' f Hi; apply in_map_iff in Hi; destruct Hi as [y [<- Hy]]; f_equal; eapply crash_U_g; exact Hy).
+    destruct synced; cbn in Hr;
+      repeat (destruct Hr as [<-|Hr]; [cbn [run] in Hc;
+                rewrite ?fsync_g in Hc; cbn [run] in Hc;
+                repeat match type of Hc with context [step (midg ?x Dg [DCreate t n] [(0, FFile n)]) (OClose 0)] =>
+                  change (step (midg x Dg [DCreate t n] [(0, FFile n)]) (OClose 0)) with (Some (midg x Dg [DCreate t n] [])) in Hc end;
+                cbn [run] in Hc; rewrite ?unlink_g in Hc; cbn [run] in Hc; eauto |]); destruct Hr.
+  Qed.
+End OneSave.
+
+(* a chain of completed saves (each with the directory sync, each with a temporary name that
+   does not exist at that time), then one more save interrupted anywhere *)
+Fixpoint run_saves (st : fs) (saves : list (name * list bytes)) : option fs :=
+  match saves with
+  | [] => Some st
+  | (t, ch) :: rest => match run st (store_ops_named t ch true) with Some st' => run_saves st' rest | None => None end
+  end.
+Fixpoint fresh_names (st : fs) (saves : list (name * list bytes)) : Prop :=
+  match saves with
+  | [] => True
+  | (t, ch) :: rest => aget t (ddir st) = None /\ t <> tgt /\
+                       match run st (store_ops_named t ch true) with Some st' => fresh_names st' rest | None => True end
+  end.
+Definition last_content (cur : option bytes) (saves : list (name * list bytes)) : option bytes :=
+  fold_left (fun _ s => Some (concat (snd s))) saves cur.
+
+Lemma chain_good : forall saves st cur,
+  good st cur -> fresh_names st saves ->
+  exists stn, run_saves st saves = Some stn /\ good stn (last_content cur saves).
+Proof.
+  induction saves as [|[t ch] rest IH]; intros st cur G F.
+  - exists st; auto.
+  - cbn [fresh_names] in F. destruct F as [Ht [Hne F]].
+    destruct (store_run_good st cur t G Ht Hne (concat ch) ch eq_refl) as [st' [R G']].
+    cbn [run_saves]. rewrite R in *. destruct (IH st' (Some (concat ch)) G' F) as [stn [Rn Gn]].
+    exists stn; split; [exact Rn|exact Gn].
+Qed.
+
+Lemma store_atomic_chain : forall saves st cur stn t ch dirsync m c,
+  good st cur -> fresh_names st saves -> run_saves st saves = Some stn ->
+  aget t (ddir stn) = None -> t <> tgt ->
+  In c (crash_states m tgt stn (store_ops_named t ch dirsync)) ->
+  c = Some (last_content cur saves) \/ c = Some (Some (concat ch)).
+Proof.
+  intros saves st cur stn t ch dirsync m c G F R Ht Hne Hc.
+  destruct (chain_good saves st cur G F) as [stn' [R' Gn]]. rewrite R in R'. inversion R'; subst stn'.
+  exact (store_atomic_good stn _ t Gn Ht Hne (concat ch) ch dirsync m c eq_refl Hc).
+Qed.
+
+Lemma good_init_fs old : good (init_fs old) old.
+Proof.
+  destruct old as [b|]; constructor; cbn; auto.
+  - exists 0; split; reflexivity.
+  - intros i Hi. destruct i; [lia|reflexivity].
+Qed.
+
+(* Without the directory sync the completed save is not durable, and a later interrupted save
+   can surface the session BEFORE the previous one under power loss: the chain theorem needs
+   dirsync = true for the completed saves. *)
+Lemma chain_without_dirsync_surfaces_older :
+  exists st1, run (init_fs (Some [9%Z])) (store_ops [[1%Z]] false) = Some st1 /\
+              In (Some (Some [9%Z])) (crash_states Power tgt st1 (store_ops_named 1 [[2%Z]] false)).
+Proof. eexists. split; [vm_compute; reflexivity|vm_compute; auto 30]. Qed.
+
 Lemma store_durable : forall (old : option bytes) (new : bytes) (chunks : list bytes),
   concat chunks = new ->
   exists st, run (init_fs old) (store_ops chunks true) = Some st /\
